@@ -90,9 +90,11 @@ def run_case(case, ctx):
     names = pkg['names']
     nap = 1 if pkg['apertures'] is None else len(pkg['apertures'])
     f32 = pkg['cube_dtype'] == 'f4'
+    aidx = convpkg.stored_ap_index(pkg)
     permuted = pkg['perm'] != sorted(pkg['perm'])
     labels = {'storage_' + pkg['storage'], 'n_ap>1' if nap > 1 else 'n_ap=1', 'apdep' if pkg['apdep'] else 'not_apdep',
-              'sed_unit_' + pkg.get('sed_unit', 'mJy').replace(' ', '_'), 'cube_unit_' + pkg.get('cube_unit', 'mJy')}
+              'sed_unit_' + pkg.get('sed_unit', 'mJy').replace(' ', '_'), 'cube_unit_' + pkg.get('cube_unit', 'mJy'),
+              'apertures_stored_' + pkg.get('ap_storage', 'asc'), 'cube_unc_unit_' + pkg.get('cube_unc_unit', 'same')}
     if f32:
         labels.add('float32_cube')
     if permuted:
@@ -128,7 +130,7 @@ def run_case(case, ctx):
                          'c07:filtwav')
                 if pkg['apertures'] is not None:
                     if t['apertures'] is None or len(t['apertures']) != nap or \
-                            any(abs(a - b) > 1e-12 * b for a, b in zip(t['apertures'], pkg['apertures'])) or \
+                            any(abs(a - pkg['apertures'][aidx[p_]]) > 1e-12 * a for p_, a in enumerate(t['apertures'])) or \
                             str(t['aperture_unit']).lower() != 'au':
                         fail('%s format: apertures %r %r, SED apertures %r AU' % (what, t['apertures'], t['aperture_unit'],
                                                                                  pkg['apertures']), 'c07:apertures')
@@ -137,14 +139,17 @@ def run_case(case, ctx):
                 rtol = 1e-5 if (fmt == 'v2' and f32) else 1e-10
                 for row, name in enumerate(t['names']):
                     m = names.index(name)
-                    for a in range(nap):
-                        if abs(t['flux'][row][a] - rf[m][a]) > rtol * abs(rf[m][a]) + 1e-300:
-                            fail('%s format, convolved/%s.fits: the row labelled %s holds flux %r in aperture %d, the SED of '
-                                 '%s gives %r' % (what, f['name'], name, t['flux'][row][a], a, name, rf[m][a]),
+                    for p_ in range(nap):
+                        a = aidx[p_]   # the files keep the stored order of the aperture axis
+                        if abs(t['flux'][row][p_] - rf[m][a]) > rtol * abs(rf[m][a]) + 1e-300:
+                            fail('%s format, convolved/%s.fits: the row labelled %s holds flux %r for the aperture of %r AU, '
+                                 'the SED of %s gives %r there' % (what, f['name'], name, t['flux'][row][p_], pkg['apertures'][a]
+                                                                    if pkg['apertures'] else None, name, rf[m][a]),
                                  'c07:row_holds_other_model')
-                        if abs(t['err'][row][a] - re_[m][a]) > max(rtol, 1e-9) * abs(re_[m][a]) + 1e-300:
-                            fail('%s format, convolved/%s.fits: the row labelled %s holds error %r in aperture %d, the SED '
-                                 'of %s gives %r' % (what, f['name'], name, t['err'][row][a], a, name, re_[m][a]),
+                        if abs(t['err'][row][p_] - re_[m][a]) > max(rtol, 1e-9) * abs(re_[m][a]) + 1e-300:
+                            fail('%s format, convolved/%s.fits: the row labelled %s holds error %r for the aperture of %r AU, '
+                                 'the SED of %s gives %r there' % (what, f['name'], name, t['err'][row][p_], pkg['apertures'][a]
+                                                                    if pkg['apertures'] else None, name, re_[m][a]),
                                  'c07:error_of_other_model')
             # the two formats agree
             rtol = 1e-5 if f32 else 1e-10
